@@ -1,5 +1,6 @@
 import GeoVerif.Model.ClientParse
 import GeoVerif.Lemmas.C10
+import GeoVerif.Lemmas.RoundTrip
 
 /-!
 # C10 — the client returns exactly what the report says
@@ -79,5 +80,26 @@ theorem parse_number_spec :
 theorem ambiguous_label_witness :
     fieldCandidates 4 "Well depth".toList ["      Well depth:   3.0 kilometer\n".toList, "      Well depth:   3.5 kilometer\n".toList]
       = [("3.0".toList, some "kilometer".toList), ("3.5".toList, some "kilometer".toList)] := by decide +kernel
+
+/-! ## end to end with the writer (C09): what the client returns for a printed figure -/
+
+/-- for every computed value `x` and every display precision `d > 0`: the client's number parser, applied to the text the report writer
+prints for `x`, returns a decimal with the sign of `x` whose digit strings denote exactly `x` rounded half-to-even to `d` decimals
+(integer part · 10^d + fraction part = round(|x|·10^d)), with exactly `d` fraction digits — never another number -/
+theorem client_reads_rounded_value (d : Nat) (hd : 0 < d) (x : Rat) :
+    ∃ ip fp : List Nat,
+      parseNumber (fmtF d x) = .dec (decide (x < 0)) (ip.map digitChar) (fp.map digitChar)
+      ∧ ofDigitsMsd ip * 10 ^ d + ofDigitsMsd fp = roundHalfEvenNat (if x < 0 then -x else x) d
+      ∧ fp.length = d ∧ 1 ≤ ip.length := by
+  refine ⟨(fixedDigits d (roundHalfEvenNat (if x < 0 then -x else x) d)).1, (fixedDigits d (roundHalfEvenNat (if x < 0 then -x else x) d)).2, ?_, ?_⟩
+  · unfold fmtF
+    exact parse_render _ d _ hd
+  · exact fixedDigits_value d _
+
+/-- kernel-evaluated instance: 1234.565 at two decimals (a tie, to even) and a negative value -/
+theorem client_reads_examples :
+    parseNumber (fmtF 2 (1234565 / 1000)) = .dec false "1234".toList "56".toList
+    ∧ parseNumber (fmtF 2 (-51 / 100)) = .dec true "0".toList "51".toList
+    ∧ parseNumber (fmtF 0 7) = .int false "7".toList := by decide +kernel
 
 end GeoVerif.C10
